@@ -359,6 +359,15 @@ func cmdCheck(args []string) int {
 			}
 		}
 	}
+	if len(degraded) > 0 {
+		// a function under contract could not be verified (stale contract / outside the subset): fall back on the
+		// property's corpus of demonstration tests as well
+		note, failing := runBounded(eng, prop, "behaviour_corpus", tier, seed)
+		boundedNotes = append(boundedNotes, note)
+		if failing != "" {
+			boundedViol = append(boundedViol, failing)
+		}
+	}
 
 	// lemma proofs (Lean) in the thorough tier
 	var lemmaNotes []string
